@@ -84,14 +84,12 @@ Definition nonreentrant : list string :=
 Definition may_throw (d : dtor_record) : bool :=
   (dt_noexcept_false d =? "yes") || match dt_callees d with [] => false | _ => true end.
 
-(* the destructors (with the possibly-throwing callees of their bodies) that are accepted as known: each one is
-   a way to reach std::terminate and is reported as a known finding (F18) or argued harmless below.
-   ~CMsgPackReadObjectScope (F17) left the list with /repo commits 0863f96 + 3580349: all its calls are inside
-   try { } catch (...) { } now. *)
+(* the destructors (with the possibly-throwing callees of their bodies) that are accepted as known.  The two that were
+   ways to reach std::terminate left the list when they were repaired in /repo: ~CMsgPackReadObjectScope (F17; commits
+   0863f96 + 3580349 + 8d03f7f) and ~CCsvWriteObjectScope (F18; commit 0a28cd4) now make all their calls inside
+   try { } catch (...) { } and hand the failure to the root scope's Finalize(). *)
 Definition expected_throwing_dtors : list (string * list string) :=      (* sorted by name *)
-  [ ("BitSerializer::Csv::Detail::CCsvWriteObjectScope::~CCsvWriteObjectScope",
-       [ "BitSerializer::Csv::Detail::ICsvWriter::NextLine [virtual]" ]);
-    (* calls the virtual OnFinishChildScope of the parent scope; its two overriders (array / object read scope)
+  [ (* calls the virtual OnFinishChildScope of the parent scope; its two overriders (array / object read scope)
        only reset a key and increment an index *)
     ("BitSerializer::MsgPack::Detail::CMsgPackScopeBase::~CMsgPackScopeBase",
        [ "BitSerializer::MsgPack::Detail::CMsgPackScopeBase::OnFinishChildScope [virtual]" ]) ].
@@ -100,25 +98,26 @@ Definition throwing_dtors (l : list dtor_record) : list (string * list string) :
   map (fun d => (dt_name d, dt_callees d)) (filter may_throw l).
 
 (* functions declared noexcept (other than destructors) that call possibly-throwing code: an exception leaving them is
-   std::terminate just the same.  Names only (their callee lists are in the generated file).  Today's list, judged by
-   hand:
-     defect  CMsgPackStreamReader::CMsgPackStreamReader  reads the first chunk of the stream in a noexcept constructor
-             (F38: a stream with exceptions(badbit) that fails at its first read terminates the process)
-     defect  Required::operator()                          builds a std::string (22 characters, heap) in a noexcept
-             function: allocation failure while reporting a missing field terminates the process (F39)
-     benign  IsEnd / IsFailed / GetEstimatedSize / ToStringView / CVariableKey::operator==: the callee is a libstdc++
-             observer (size, eof, fail, operator basic_string_view) that the translator cannot see to be noexcept
-     benign  ParseSecondFractions, PrintSecondsFractions, LittleEndianToNative, FieldsCountVisitor::*: arithmetic /
-             dependent calls that resolve to non-throwing functions
-     benign  TryTo: the throwing call is inside try { } catch (const std::exception&) (not a catch-all, hence listed) *)
+   std::terminate just the same.  Names only (their callee lists are in the generated file).  The two defects this list
+   exposed were repaired in /repo and left it: CMsgPackStreamReader::CMsgPackStreamReader (I38, commit b4cddb4) and
+   Required::operator() (I39, commit 0ecb986) are no longer noexcept.  Today's list, judged by hand, all benign:
+     IsEnd / IsFailed / GetEstimatedSize / ToStringView / CVariableKey::operator== / ICsvWriter::DeferError: the callee
+       is a libstdc++ observer (size, eof, fail, bad, operator basic_string_view, exception_ptr::operator bool) that the
+       translator cannot see to be noexcept
+     CMsgPackReadObjectScope::CMsgPackReadObjectScope: default-constructs its std::string member (no allocation)
+     ParseSecondFractions, PrintSecondsFractions, LittleEndianToNative, FieldsCountVisitor::*: arithmetic / dependent
+       calls that resolve to non-throwing functions
+     TryTo: the throwing call is inside try { } catch (const std::exception&) (not a catch-all, hence listed) *)
 Definition expected_noexcept_callers : list string :=      (* sorted by name, as the translator emits them *)
   [ "BitSerializer::Convert::Detail::ParseSecondFractions";
     "BitSerializer::Convert::Detail::PrintSecondsFractions";
     "BitSerializer::Convert::Detail::ToStringView";
     "BitSerializer::Convert::TryTo";
     "BitSerializer::Convert::Utf::CEncodedStreamReader::IsEnd";
+    "BitSerializer::Convert::Utf::CEncodedStreamReader::IsFailed";
     "BitSerializer::Csv::Detail::CCsvReadObjectScope::GetEstimatedSize";
     "BitSerializer::Csv::Detail::CCsvStringReader::IsEnd";
+    "BitSerializer::Csv::Detail::ICsvWriter::DeferError";
     "BitSerializer::Detail::CBinaryStreamReader::IsEnd";
     "BitSerializer::Detail::CBinaryStreamReader::IsFailed";
     "BitSerializer::FieldsCountVisitor::GetContext";
@@ -127,10 +126,9 @@ Definition expected_noexcept_callers : list string :=      (* sorted by name, as
     "BitSerializer::FieldsCountVisitor::IsLoading";
     "BitSerializer::FieldsCountVisitor::IsSaving";
     "BitSerializer::Memory::LittleEndianToNative";
-    "BitSerializer::MsgPack::Detail::CMsgPackStreamReader::CMsgPackStreamReader";
+    "BitSerializer::MsgPack::Detail::CMsgPackReadObjectScope::CMsgPackReadObjectScope";
     "BitSerializer::MsgPack::Detail::CMsgPackStringReader::IsEnd";
-    "BitSerializer::MsgPack::Detail::CVariableKey::operator==";
-    "BitSerializer::Required::operator()" ].
+    "BitSerializer::MsgPack::Detail::CVariableKey::operator==" ].
 
 Definition noexcept_callers (l : list dtor_record) : list string := map dt_name (filter may_throw l).
 
